@@ -287,6 +287,24 @@ theorem wrapBytes_width (text : List Char) (n : Nat) (hsp : cw ' ' = 1) (hesc : 
   · exact Or.inl h
   · exact Or.inr ⟨h3, h4⟩
 
+/-- **wrap_content**: wrapping a line consumes nothing but spaces — the non-space characters of
+    the output lines, in order, are exactly those of the input line (for any width table). -/
+theorem wrap_content (line : List Char) (n : Nat) :
+    noSp (wrapLine cw n line).flatten = noSp line := by
+  have h1 : ∀ gs : List (List Word), noSp (gs.map lineOf).flatten = gs.flatten.flatMap (fun x => noSp x.word) := by
+    intro gs
+    induction gs with
+    | nil => rfl
+    | cons g gs ih => simp only [List.map_cons, List.flatten_cons, noSp_append, noSp_lineOf, ih, List.flatMap_append]
+  have h2 : ∀ ws : List Word, ws.flatMap (fun x => noSp x.word) = noSp (ws.flatMap (fun x => x.word)) := by
+    intro ws
+    induction ws with
+    | nil => rfl
+    | cons x xs ih => simp only [List.flatMap_cons, noSp_append, ih]
+  have h3 : noSp (noSp line) = noSp line := by simp [noSp]
+  rw [wrapLine, h1, wrapFirstFit, wrapAux_flatten, List.reverse_nil, List.nil_append, h2, splitWords,
+    splitWordsAux_words, List.reverse_nil, List.nil_append, h3]
+
 /-- non-vacuity / the unit tests of `wrap_bytes` evaluated on the model -/
 example : wrapBytes (fun _ => 1) 10 "foo bar baz".toList = ["foo bar".toList, "baz".toList] ∧
     wrapBytes (fun _ => 1) 8 "foo  bar   baz".toList = ["foo  bar".toList, "baz".toList] ∧
